@@ -65,6 +65,8 @@ def run(ck: Check) -> int:
                   (MichelsonType.__dict__['as_micheline_expr'], 'MichelsonType.as_micheline_expr')):
         ck.function(f, name='pytezos.michelson:' + nm)
     C01_I.run_I_types(ck)        # deductive part: class (constructor + component types) of every value produced by the real execute methods
+    from props import C16_P
+    C16_P.run_option_types(ck)      # option results of ISNAT / EDIV / SUB_MUTEZ: argument type in the None case too
     ck.assume('static types are those of the reference typechecker specs/michelson_ref.py (validated with the reference semantics '
               'against the recorded Octez tuples, see C01)')
     ck.trust('specs/michelson_ref.py (typing rules), bounded/C01_gen.py, bounded/C01_engine.py')
